@@ -414,7 +414,9 @@ func runHttpEntry(p sx.Sx) sx.Sx {
 func genHttpEntry(r *Rand, tier string, emit func(sx.Sx)) {
 	// targets with repeated keys, empty values, keys without '=', percent-escapes and '+'
 	targets := []string{"/s?tag=1&tag=2", "/s?tag=1,2", "/s?a=1&b=2&a=3&a=4", "/s?k", "/s?k=&k=v", "/p%20q/r?x=%41%20b&y=c+d", "/", "/plain",
-		"http://host.example/abs?z=1&z=2", "/s?tag=1&tag=1"}
+		"http://host.example/abs?z=1&z=2", "/s?tag=1&tag=1",
+		// '+' is a plain character in a path (a space only in a form-encoded query); escapes of '+', ' ' and '/'; a path of two slashes
+		"/download/libstdc++-v3.tar.gz", "/a+b/c%2Bd%20e%2Ff?x=1+2&y=%2B", "/+", "//static/app.js?v=1", "/a//b", "/%2B+%2b"}
 	host := sx.L(sx.L(sx.S("Host"), sx.S("host.example")))
 	for _, t := range targets {
 		req := sx.L(sx.A("req"), sx.S("GET"), sx.S(t), sx.N(1), host, sx.A("none"), sx.B(nil))
